@@ -306,6 +306,10 @@ def _elif_cases():
                     {3: False, 5: False, 8: True}))
         out.append((["#ifdef M1", "int a;", f"#elif {bad}", "int b;", "#else", "int c;", "#endif"],
                     {2: True, 4: False, 6: False}))
+        # a nested chain that selects nothing, inside the taken branch of a chain that goes on with the bad #elif
+        out.append((["#if 1", "#if 0", "int a;", "#endif", "int b;", f"#elif {bad}", "int c;", "#endif"], {3: False, 5: True, 7: False}))
+        out.append((["#if 1", "#if 0", "int a;", "#elif 0", "int b;", "#endif", f"#elif {bad}", "int c;", "#else", "int d;", "#endif"],
+                    {3: False, 5: False, 8: False, 10: False}))
     return out
 
 
